@@ -470,7 +470,7 @@ func (t *c27Transport) PutFile(ctx context.Context, hubID string, e *LedgerEntry
 		_, _ = t.rig.recv.SweepStaging(ctx, time.Second, time.Now().Add(time.Hour))
 		return t.receive(ctx, e, body, offset)
 	case "foreignBefore":
-		t.rig.seedForeign(e.Path)
+		t.rig.seedForeignMode(e.Path, f.K%2 == 0)
 		return t.receive(ctx, e, body, offset)
 	}
 	return nil, fmt.Errorf("c27: unknown fault %q", f.Kind)
@@ -533,7 +533,12 @@ var _ SyncTransport = (*c27Transport)(nil)
 
 // seedForeign makes a colliding writer (same spoke ID, different bytes) commit
 // content at a path through the REAL receiver, unless the hub already knows the path.
-func (r *c27Rig) seedForeign(p string) bool {
+func (r *c27Rig) seedForeign(p string) bool { return r.seedForeignMode(p, true) }
+
+// seedForeignMode: indexed=false puts the colliding bytes at the hub path WITHOUT a
+// receipt (file older than the receipt index, index database restored or recreated):
+// reconcile then answers "missing" and the conflict only surfaces during the transfer.
+func (r *c27Rig) seedForeignMode(p string, indexed bool) bool {
 	ctx := context.Background()
 	r.mu.Lock()
 	_, already := r.foreign[p]
@@ -550,6 +555,14 @@ func (r *c27Rig) seedForeign(p string) bool {
 		return false
 	}
 	content := []byte("FOREIGN-WRITER:" + p)
+	if !indexed {
+		r.must(r.hubBE.LocalBackend.Write(ctx, NamespacedPath(c27SpokeID, p), content), "write un-indexed foreign file")
+		r.mu.Lock()
+		r.foreign[p] = content
+		r.mu.Unlock()
+		verifkit.Class("foreign-file-without-receipt")
+		return true
+	}
 	res, err := r.recv.Receive(ctx, c27SpokeID, p, c27SHA(content), int64(len(content)), 0, bytes.NewReader(content))
 	if err != nil || res.Outcome != OutcomeCommitted {
 		r.t.Fatalf("HARNESS foreign seed of %s: res=%+v err=%v", p, res, err)
@@ -1204,6 +1217,43 @@ func (r *c27Rig) strandInFlight(t *rapid.T) {
 	}
 }
 
+// staleBatch generalises staleConfirm to 2-4 files of ONE reconcile batch: their
+// uploads commit with the acks lost, several hub copies then disappear together
+// (retention / tiering / rm over the namespace), and a clean pass reconciles them
+// side by side.
+func (r *c27Rig) staleBatch(t *rapid.T) {
+	n := rapid.IntRange(2, 4).Draw(t, "staleBatchN")
+	var targets []*c27File
+	put := map[string]c27PutFault{}
+	for i := 0; i < n; i++ {
+		r.addFile(t)
+		f := r.files[r.order[len(r.order)-1]]
+		targets = append(targets, f)
+		put[f.Path] = c27PutFault{Kind: "dropAfter"}
+	}
+	verifkit.Class("directed:stale-batch")
+	r.note("directed staleBatch on %d files", n)
+	r.scripted(put, nil, "dropAfter on each new file")
+	hub, rows := r.hubFiles(), r.ledgerRows()
+	vanished := 0
+	for i, f := range targets {
+		b, ok := hub[NamespacedPath(c27SpokeID, f.Path)]
+		if !ok || c27SHA(b) != f.SHA || rows[f.Path].State != string(StatePending) {
+			continue
+		}
+		// usually all of them; sometimes one survivor in between
+		if i > 0 && rapid.IntRange(0, 5).Draw(t, "staleBatchKeep") == 0 {
+			continue
+		}
+		r.vanishHubPath(f.Path)
+		vanished++
+	}
+	if vanished >= 2 {
+		verifkit.Class("batch-with-2+-stale-receipts")
+	}
+	r.run(t, false)
+}
+
 func (r *c27Rig) pruneSynced() {
 	_, err := r.spokeDB.Exec(`UPDATE sync_ledger SET synced_at = ? WHERE state = 'synced'`, time.Now().UTC().AddDate(0, 0, -30))
 	r.must(err, "age synced rows")
@@ -1225,7 +1275,7 @@ func c27History(t *rapid.T) {
 	steps := rapid.IntRange(4, verifkit.Scale(14, 20)).Draw(t, "steps")
 	for i := 0; i < steps; i++ {
 		act := rapid.SampledFrom([]string{"add", "add", "add", "run", "run", "run", "run", "run", "vanishSpoke", "compactSpoke", "compactSpoke",
-			"compactHub", "vanishHub", "sweepStaging", "foreign", "requeue", "dismiss", "restart", "prune", "staleConfirm", "staleConfirm", "resumeSplice", "resumeSplice", "strandInFlight", "strandInFlight"}).Draw(t, "action")
+			"compactHub", "vanishHub", "sweepStaging", "foreign", "requeue", "dismiss", "restart", "prune", "staleConfirm", "staleConfirm", "resumeSplice", "resumeSplice", "strandInFlight", "strandInFlight", "staleBatch", "staleBatch"}).Draw(t, "action")
 		switch act {
 		case "add":
 			for j, n := 0, rapid.IntRange(1, 3).Draw(t, "nFiles"); j < n; j++ {
@@ -1248,9 +1298,10 @@ func c27History(t *rapid.T) {
 			r.must(err, "sweep staging")
 			r.note("sweepHubStaging removed %d", n)
 		case "foreign":
-			if f := r.pick(t, "foreignPath", func(f *c27File) bool { return !f.Compacted }); f != nil && r.seedForeign(f.Path) {
+			indexed := rapid.IntRange(0, 2).Draw(t, "foreignIndexed") > 0
+			if f := r.pick(t, "foreignPath", func(f *c27File) bool { return !f.Compacted }); f != nil && r.seedForeignMode(f.Path, indexed) {
 				r.faulted = true
-				r.note("foreignWriterCommits %s", f.Path)
+				r.note("foreignWriterCommits %s indexed=%v", f.Path, indexed)
 			}
 		case "requeue":
 			n, err := r.agent.RequeueFailed(context.Background(), "")
@@ -1271,6 +1322,8 @@ func c27History(t *rapid.T) {
 			r.resumeSplice(t)
 		case "strandInFlight":
 			r.strandInFlight(t)
+		case "staleBatch":
+			r.staleBatch(t)
 		}
 		r.check("after " + act)
 	}
